@@ -17,7 +17,7 @@ import re
 from vf import astn, fm
 from vf.core import Collector
 from vf.protect import protected
-from vf.docbase import DocProp, ellipsis_mechanism, first_line_diff, opts_key, rand_opts
+from vf.docbase import DocProp, drop_protective_escapes, ellipsis_mechanism, first_line_diff, opts_key, rand_opts
 from vf.spans import first_diff as span_diff
 from vf.spans import spans
 
@@ -138,7 +138,7 @@ class C09(DocProp):
                 desc = "C09/diff/second-pass-changes"
                 if base_again == off or True:
                     unq = (lambda t: t.translate({0x201c: '"', 0x201d: '"', 0x2018: "'", 0x2019: "'"})) if o.get("smartquotes") else (lambda t: t)
-                    sq = lambda t: re.sub(r"\s+", "", canon(re.sub(r"(?m)^[ >]+", "", unq(t))))  # noqa: E731
+                    sq = lambda t: re.sub(r"\s+", "", drop_protective_escapes(canon(re.sub(r"(?m)^[ >]+", "", unq(t)))))  # noqa: E731
                     em = ellipsis_mechanism(on, again)
                     if sq(on) == sq(again) and em == "ellipsis-at-line-start":
                         desc = "C09/diff/second-pass-converts-a-run-left-by-the-first"
